@@ -21,13 +21,13 @@ for i in range(1, 21):
 
 ROWS = {
  "C01": ("EndToEnd.newHash_then_check_⟨S⟩ (∀ request: the string NewHash returns verifies; Key opaque), newHash_ok/total_⟨S⟩, newHash_empty_iff_md5/des, generated_salt_accepted, KDF totality (KdfProps.*_total_gen), C07.builtins_registered",
-         "T: constants, shapes, guards, registrations, and the scheme pipeline itself (FlowModel: the regenerated flow IR evaluates to Scheme.check/params/newHash) · H: KDF bodies, codec",
+         "T: constants, shapes, guards, registrations, and the scheme pipeline itself (FlowModel: the regenerated flow IR evaluates to Scheme.check/params/newHash) · H: codec (KDF glue is regenerated: KdfIR/KdfIR2 *_key_tail_ir_eq_derive)",
          "scheme (NewHash→Check→crypt.Check byte-for-byte under scripted entropy; BSDi integer coding; cost at the exported bound; unicode / ill-formed UTF-8 passwords for NT hash)",
          "KDF bodies and codec tied by correspondence"),
  "C02": ("C02.check_ok_iff (nil ⇔ Key's result re-encodes to the stored digest), error-return theorems, tampered_digest_never_ok; for EVERY scheme the documented password equivalence as a predicate, 'equivalent ⇒ same verdict' and 'both verify ⇒ equivalent ∨ a named collision of the primitive' (KdfProps.*_absorbs, C02b.des/desext/bcrypt/nthash/argon2_check_absorbs); desext_twin_checks, bcryptEquiv_coarser (the algorithm's equivalence is coarser than the wording: F16, F17)",
          "T+H", "scheme (near-miss passwords under each scheme's equivalence, every digest-symbol substitution, the proved inherent equivalences replayed)", "the non-collision of the primitives is an explicit disjunct (a hypothesis, never an axiom)"),
  "C03": ("model = reference written from the published algorithm, ∀ inputs (and ∀ hash function where generic): md5crypt_eq_spec, sha2crypt_eq_spec, C03b.sha1crypt_eq_spec, sunmd5_eq_spec(_wrap), nthash_eq_spec, bcrypt_eq_spec (+ bcrypt_long_password_deviation: the documented pre-2b ≥254-byte rule), descrypt/desext_layer_eq_spec, and C03b.encrypt_eq_fips: the table-driven DES (tables regenerated from const.go) = FIPS 46-3 DES with the crypt(3) salt swap for every 64-bit key and block",
-         "T: all DES tables, permutation tables, and the KDF bodies of md5-crypt / SHA-crypt / sha1-crypt / Permute (KdfIR: regenerated hash-transcript IR = skeleton) · H: Sun MD5, DES/BSDi, bcrypt bodies, Lean primitives",
+         "T: all DES tables, permutation tables, and the KDF bodies of ALL ten schemes: md5-crypt / SHA-crypt / sha1-crypt / Permute (KdfIR) and descrypt.Key/EncodeInt/DecodeInt, desext.key/Key, des.Key, nthash.Key/encodePassword, the Sun MD5 coin-toss loop, bcrypt.Key/encode and every Key tail (KdfIR2: slot-based hash-transcript IR, closures lifted; regenerated = model for all inputs) · H: the hash/cipher primitives (MD4/MD5/SHA/Blowfish/DES rounds in Lean), Argon2 fill loop",
          "kdf (Go Key vs model) + xcrypt (Go vs the system's libxcrypt 4.4 via cgo, both directions)",
          "hash/cipher primitives are parameters or hand copies validated differentially; libxcrypt tie is a test; F11"),
  "C04": ("C04.key_eq_rfc (∀ P,S,p,T,m,t on 1≤p≤255, 8p≤m<2³²: model key = independent RFC 9106 reference), blake2bHash_eq_H', processBlock_eq_G, indexAlpha_eq_refIndex (regenerated kernel), roundedMemory_eq_rfc",
@@ -53,7 +53,7 @@ ROWS = {
  "C11": ("parse_lossless, parse_eq_ref (= split-based reference on every input), spans_exact, values_no_delim, groups_surface_once, parse_error_iff, lexer terminal token last, lexer_goroutine_facts (regenerated)",
          "T: the whole lexer and parser (ParseFlow/DispatchFlow: regenerated structured IR = model, for every input), goroutine-structure facts", "parse (all strings ≤ 7 over the delimiter alphabet + random; token streams via hook; goroutine count)", "the channel is modelled as a producer list (rendezvous); goroutine exit observed"),
  "C12": ("EndToEnd.newHash_canonical_⟨S⟩ (∀ request: output accepted by the independent recogniser with documented prefix, requested cost in canonical form, default-length salt over the alphabet, fixed-length digest = Key's result re-encoded), params_of_newHash_⟨S⟩, defaults_agree (Params and Check apply the same defaults: regenerated flow IR)",
-         "T: flow IR (evaluates to the pipeline model: FlowModel), shapes, constants · H: codec, KDF bodies",
+         "T: flow IR (evaluates to the pipeline model: FlowModel), shapes, constants · H: codec (KDF glue is regenerated: KdfIR/KdfIR2 *_key_tail_ir_eq_derive)",
          "scheme (independent regular expression, byte identity with model, BSDi integer coding, the exported cost bound, Check ⇔ Key(Params) on non-canonical spellings)", "model↔Go differential"),
  "C13": ("argSafe_/resultFresh_⟨S⟩ decided by the kernel on the regenerated slice-effect IR (stores through pointers included); C13Sound.argSafe_sound / resultFresh_sound / results_disjoint_across_calls (semantics: Spec/SliceSem.lean), argSafe_complete, pointsTo_exact",
          "T: the IR itself", "purity (sentinel buffers, option structs incl. rejected/defaulted values, repeated/interleaved calls, mutated results)", "gogen's slice-effect translator and its library-call table"),
